@@ -145,7 +145,13 @@ def build_case(r: random.Random, idx: int, tier: str, forced=None):
     if resync in ('api-during-batch', 'refresh+api'):
         # operations landing between two UPDATEs of the resynchronisation batch
         k2 = r.choice([1, 5, 24, 26, n // 2])
-        steps.append(['wait_msg', rw.UPDATE, 60.0, max(1, min(k2, n - 1))])
+        limit = n - 1
+        if resync == 'refresh+api':
+            # the routes asked for by the ROUTE-REFRESH are streamed after (or in the middle of) the initial table: the
+            # operations must also land while THOSE are going out, whatever the order the two streams take
+            k2 = r.choice([1, 5, 26, n // 2, n + 3, n + n // 2, 2 * n - 3])
+            limit = 2 * n - 1
+        steps.append(['wait_msg', rw.UPDATE, 60.0, max(1, min(k2, limit))])
         victims2 = announced[:1] + ([routes[-1]] if r.random() < 0.5 else [])
         for (p, nh, m) in victims2:
             steps.append(['api', f'peer * withdraw route {p} next-hop {nh}'])
@@ -156,6 +162,16 @@ def build_case(r: random.Random, idx: int, tier: str, forced=None):
         for (p, nh, m) in late:
             steps.append(['api', f'peer * announce route {p} next-hop {nh} med {m}'])
         announced += late
+    if resync == 'refresh+api':
+        # second round, from a quiet session: a ROUTE-REFRESH and a new API route arrive together, so that ONE batch of the
+        # update generator holds the refreshed routes (streamed first) and the new announcement; the route is withdrawn
+        # while the refreshed routes are going out.  It must be gone in the end, whichever batch carries the withdrawal
+        import struct
+
+        y = api_route(177)
+        steps += [['wait_quiet', 1.0, 30.0], ['send', rw.message(rw.ROUTE_REFRESH, struct.pack('!HBB', 1, 0, 1)).hex()], ['api', f'peer * announce route {y[0]} next-hop {y[1]} med {y[2]}']]
+        steps += [['wait_more', rw.UPDATE, 30.0, r.choice([1, 2, 3, 8, n // 3])], ['api', f'peer * withdraw route {y[0]} next-hop {y[1]}']]
+        withdrawn = withdrawn + [y]
     steps += [['wait_quiet', 2.0, 30.0], ['mark', 'end']]
     intended = {p: (nh, m) for p, nh, m in routes}
     intended.update({p: (nh, m) for p, nh, m in announced})
